@@ -36,6 +36,10 @@ def run(tier):
     scripts = [others[i:i + 500] for i in range(0, len(others), 500)] + [[s] for s in sweeps]
     res = vf.run_scripts('endian', scripts, 'C15', name='endian', flavours=4, flav_every=7)
     v.exec_problems(res, 'endian')
+    # the same cases on the build with the hand-written swap routines (UFW_USE_BUILTIN_SWAP off)
+    res2 = vf.run_scripts('endian_manualswap', [others[i:i + 500] for i in range(0, len(others), 500)] + [[s] for s in sweeps if quick], 'C15', name='endianms', flavours=4, flav_every=7)
+    v.exec_problems(res2, 'endian_manualswap')
+    v.cov['evaluations'] += res2.checked
     per = 8 * 256 + 128 + 65536 + 20000
     v.cov['traces_validated_against_impl'] += len(cases)
     v.cov['evaluations'] += len(others) + len(sweeps) * per
